@@ -775,6 +775,10 @@ impl Paragraph {
         for (pre, entry) in entries.into_iter() {
             for c in pre.into_iter() {
                 builder.token(c.kind().into(), c.as_token().unwrap().text());
+                // the newline that ended the comment line is not collected above
+                if c.kind() == COMMENT {
+                    builder.token(NEWLINE.into(), "\n");
+                }
             }
 
             inject(
@@ -792,6 +796,9 @@ impl Paragraph {
 
         for c in current {
             builder.token(c.kind().into(), c.as_token().unwrap().text());
+            if c.kind() == COMMENT {
+                builder.token(NEWLINE.into(), "\n");
+            }
         }
 
         builder.finish_node();
